@@ -19,14 +19,17 @@ func init() {
 		registerExtMethod2("t2", "sink.Mode", "read")
 		registerSum2("t2", "shape", []string{"*sq", "*rc"})
 		registerSum2("t2", "node", []string{"*leafN", "*branchN"})
+		registerOpenChan2("t2", "box.done")
 		register2("t2", []string{"sumTo", "find", "countUntil", "nested", "at", "window", "be", "put", "div",
 			"classify", "guarded", "check", "mk", "rangeInt", "lines", "greet", "anyTrue", "ctr.inc", "mach.step", "sq.area", "rc.area", "disp.route",
-			"parse", "widen", "flags", "text"})
+			"parse", "widen", "flags", "text",
+			"box.cas", "box.push", "box.offer", "box.pin", "box.room"})
 	case "bad":
 		registry2 = map[string]*target2{}
 		pkgOrder2 = nil
 		register2("t2", []string{"badWhile", "badParamWrite", "badShadow", "badMap", "badClosure", "badBound",
 			"badAlias", "badString", "badGoto", "badRangeWrite", "badAliasInLoop", "badFuncField", "badIface",
-			"badFloatAdd", "badFloatLess", "badFloatNarrow", "badMutualA", "badMutualB"})
+			"badFloatAdd", "badFloatLess", "badFloatNarrow", "badMutualA", "badMutualB",
+			"badSelectTwo", "badRecvValue", "badChanOfPointers", "badNamedResult", "badClose"})
 	}
 }
